@@ -1,5 +1,5 @@
 (* C02/Witness.v — non-vacuity of the theorems' hypotheses and further concrete runs (vm_compute). *)
-From Verif Require Import Common.Base C02.Model C02.Proofs C02.Proofs5.
+From Verif Require Import Common.Base C02.Model C02.Proofs C02.Proofs5 C02.PropCheck C02.Link.
 Local Open Scope Z_scope.
 
 Definition wc (k : qkind) (b w : bool) : cfg := {| kind := k; cap := 4; blocking := b; wfr := w |}.
@@ -126,3 +126,26 @@ Example w_last_item_corrupt :
   size s' = 0 /\ items s' = [] /\ dropped s' = [1%nat] /\ hand s' = [0%nat] /\ tok s' = true /\ waiting s' = 0 /\
   cons s' = [(7%nat, false)].
 Proof. vm_compute. repeat split; reflexivity. Qed.
+
+(* ---- round 5 ---------------------------------------------------------------------------------------------------- *)
+(* hypotheses of accepted_handed_and_finished_at_quiescence / no_lost_wakeup_iff are satisfiable: q_quiescent above.
+   The persistent queue does not check the sign of a size (the in-memory queue does): outside wf_label an Offer of
+   size -1 drives the reported size below zero — why "never negative" needs the Sizer contract (sizes >= 0) *)
+Example pq_negative_size_witness :
+  let s := final (wc Pers false false) [LOffer 0 (-1)] in
+  size s = -1 /\ pget 0%nat (prods s) = Some (PRet ROk) /\ ~ wf_label (wc Pers false false) (LOffer 0 (-1)).
+Proof.
+  split; [vm_compute; reflexivity|]. split; [vm_compute; reflexivity|].
+  intros H. simpl in H. specialize (H eq_refl). lia.
+Qed.
+
+(* model_passes_checker_BZH is not vacuous: a run with refusals, a blocked producer, hand-offs and completions is
+   well-formed in the harness's coding, its observed case has 17 labels, and the executable checker accepts it *)
+Example w_link_nonvacuous :
+  let c := wc Mem true true in
+  Forall (lnk_label c) w_trace /\ length (snd (observed_case c w_trace)) = 17%nat /\
+  prop_ok (observed_case c w_trace) = true.
+Proof.
+  split; [unfold w_trace, lnk_label, obs_label; repeat constructor; simpl; intros; discriminate|].
+  split; vm_compute; reflexivity.
+Qed.
